@@ -26,6 +26,7 @@ import (
 	"fmt"
 	"net/netip"
 	"strings"
+	"sync"
 	"testing"
 	"time"
 
@@ -503,6 +504,9 @@ func (w *c13World) build(c *core.Case) (data []byte, desc string) {
 		if pt == "announce" {
 			mt = core.OneOf(c, "ping.mt.ann", frame.RouterHopPingDeprecated, frame.RouterHopPing)
 			dst = m.RouterAddress
+			if c.Chance("ann.unicast", 1, 4) {
+				dst = core.OneOf(c, "ann.dst", w.P.IP(), w.ms.nodes[len(w.ms.nodes)-1].IP(), netip.MustParseAddr("fd3f::1"), netip.MustParseAddr("fd80::1"))
+			}
 		}
 		desc = "ping/" + pt
 	case 1: // valid header, announce with a chain
@@ -510,6 +514,9 @@ func (w *c13World) build(c *core.Case) (data []byte, desc string) {
 		msg = append([]byte{1, byte(len(hdr))}, hdr...)
 		msg = append(msg, c13PingBody(c, w, "announce")...)
 		mt, dst = frame.RouterHopPingDeprecated, m.RouterAddress
+		if c.Chance("ann.unicast", 1, 4) {
+			dst = core.OneOf(c, "ann.dst", w.P.IP(), w.ms.nodes[len(w.ms.nodes)-1].IP(), netip.MustParseAddr("fd3f::1"), netip.MustParseAddr("fd80::1"))
+		}
 		desc = "announce-chain"
 	case 2: // traffic
 		mt = core.OneOf(c, "traffic.mt", frame.NetworkTraffic, frame.NetworkTraffic, frame.SessionData, frame.SessionCtrl)
@@ -609,13 +616,50 @@ func (w *c13World) build(c *core.Case) (data []byte, desc string) {
 	return data, fmt.Sprintf("%s src=%s type=%d ttl=%d badauth=%v len=%d", desc, s.name, mt, ttl, badAuth, len(data))
 }
 
+var (
+	c13OddOnce sync.Once
+	c13Odd     []*ids.Identity
+)
+
+// c13OddIdentities: self-consistent identities (address = digest of the key
+// material) with a 33- and a 31-byte public key, found by brute force over the
+// easing value; frames "from" them are signed with the genuine 64-byte private key.
+func c13OddIdentities() []*ids.Identity {
+	c13OddOnce.Do(func() {
+		base := c01FromPool(ids.Group("af")[1])
+		for _, v := range []struct {
+			name string
+			pub  []byte
+		}{{"odd-33-byte-key", append(append([]byte(nil), base.pub...), 7)}, {"odd-31-byte-key", append([]byte(nil), base.pub[:31]...)}} {
+			x := base
+			x.pub = v.pub
+			for start := uint64(1); start < 200000; start += 6000 {
+				if nx, ok := c01Rederive(x, start); ok {
+					addr := &m.Address{PublicAddress: nx.public(), PrivateKey: ed25519.PrivateKey(nx.priv)}
+					c13Odd = append(c13Odd, &ids.Identity{Index: -1, Group: v.name, Addr: addr})
+					break
+				}
+			}
+		}
+	})
+	return c13Odd
+}
+
 func c13Setup(c *core.Case) *c13World {
 	topo := genTopo(c, 3, 5)
 	st := config.Store{ServiceConfigs: []config.ServiceConfig{{Name: "dns", URL: "udp://:53", Public: true}, {Name: "web", URL: "http://web.myco", Friends: true}}}
 	_ = st
-	ms := buildMesh(c, topo, meshOpts{infoClass: 1, withTun: true, spread: c.Bool("spread"), bigLabels: true})
-	c09Flood(c, ms, 400_000, false)
+	// One world in four is a young router: everybody it has heard of so far is a
+	// stub router (a routing table with no route it may forward over).
+	young := c.Chance("world.young", 1, 4)
 	vi := c.Int("victim", 0, topo.n-1)
+	o := meshOpts{infoClass: 1, withTun: true, spread: c.Bool("spread"), bigLabels: true}
+	if young {
+		o.stub = func(i int) bool { return i != vi }
+		c.Class("world/young-router-among-stubs")
+	}
+	ms := buildMesh(c, topo, o)
+	c09Flood(c, ms, 400_000, false)
 	V := ms.nodes[vi]
 	adj := topo.adj()
 	P := ms.nodes[adj[vi][c.Pick("peer", len(adj[vi]))]]
@@ -642,6 +686,10 @@ func c13Setup(c *core.Case) *c13World {
 		}
 	}
 	w.srcs = append(w.srcs, mk("unseen-a", ms.outsider(ids.Group("af"), 0), false), mk("unseen-b", ms.outsider(ids.Group("ea"), 1), false), mk("unseen-privacy", ids.Group("privacy")[0], false))
+	// Never-seen identities whose address really is the digest of an odd-sized key.
+	for _, odd := range c13OddIdentities() {
+		w.srcs = append(w.srcs, mk("unseen-"+odd.Group, odd, false))
+	}
 	return w
 }
 
